@@ -234,6 +234,36 @@ impl core::ops::Neg for Scalar {
     #[verifier::external_body]
     fn neg(self) -> (r: Scalar) { unimplemented!() }
 }
+impl vstd::std_specs::ops::AddAssignSpecImpl<Scalar> for Scalar {
+    open spec fn obeys_add_assign_spec() -> bool { true }
+    open spec fn add_assign_req(&self, rhs: Scalar) -> bool { true }
+    open spec fn add_assign_spec(&self, rhs: Scalar) -> &Scalar { &s_add(*self, rhs) }
+}
+impl core::ops::AddAssign<Scalar> for Scalar {
+    #[verifier::external_body]
+    fn add_assign(&mut self, rhs: Scalar)
+    { unimplemented!() }
+}
+impl vstd::std_specs::ops::SubAssignSpecImpl<Scalar> for Scalar {
+    open spec fn obeys_sub_assign_spec() -> bool { true }
+    open spec fn sub_assign_req(&self, rhs: Scalar) -> bool { true }
+    open spec fn sub_assign_spec(&self, rhs: Scalar) -> &Scalar { &s_sub(*self, rhs) }
+}
+impl core::ops::SubAssign<Scalar> for Scalar {
+    #[verifier::external_body]
+    fn sub_assign(&mut self, rhs: Scalar)
+    { unimplemented!() }
+}
+impl vstd::std_specs::ops::MulAssignSpecImpl<Scalar> for Scalar {
+    open spec fn obeys_mul_assign_spec() -> bool { true }
+    open spec fn mul_assign_req(&self, rhs: Scalar) -> bool { true }
+    open spec fn mul_assign_spec(&self, rhs: Scalar) -> &Scalar { &s_mul(*self, rhs) }
+}
+impl core::ops::MulAssign<Scalar> for Scalar {
+    #[verifier::external_body]
+    fn mul_assign(&mut self, rhs: Scalar)
+    { unimplemented!() }
+}
 impl vstd::std_specs::cmp::PartialEqSpecImpl for Scalar {
     open spec fn obeys_eq_spec() -> bool { true }
     open spec fn eq_spec(&self, other: &Scalar) -> bool { *self == *other }
@@ -344,6 +374,16 @@ impl vstd::std_specs::ops::AddAssignSpecImpl<G1Projective> for G1Projective {
 impl core::ops::AddAssign<G1Projective> for G1Projective {
     #[verifier::external_body]
     fn add_assign(&mut self, rhs: G1Projective)
+    { unimplemented!() }
+}
+impl vstd::std_specs::ops::SubAssignSpecImpl<G1Projective> for G1Projective {
+    open spec fn obeys_sub_assign_spec() -> bool { true }
+    open spec fn sub_assign_req(&self, rhs: G1Projective) -> bool { true }
+    open spec fn sub_assign_spec(&self, rhs: G1Projective) -> &G1Projective { &g1_sub(*self, rhs) }
+}
+impl core::ops::SubAssign<G1Projective> for G1Projective {
+    #[verifier::external_body]
+    fn sub_assign(&mut self, rhs: G1Projective)
     { unimplemented!() }
 }
 impl vstd::std_specs::cmp::PartialEqSpecImpl for G1Projective {
